@@ -898,6 +898,7 @@ pub fn explore(prop: &str, seed: u64, thorough: bool, st: &mut Stats) -> Vec<Rep
             &mut b
         };
         let o = eval_on(bref, &p.sc, p.mode, &p.strat, p.rs, None);
+        crate::driver::chain(o.digest);
         st.runs += 1 + (p.mode == "cmp") as u64;
         st.steps += o.steps;
         st.switches += o.switches;
@@ -966,6 +967,7 @@ fn explore_async(prop: &str, seed: u64, sc: &Scenario, thorough: bool, st: &mut 
             &mut b
         };
         let o = eval_async_on(bref, &p.sc, &p.strat, p.rs, None);
+        crate::driver::chain(o.digest);
         st.runs += 1;
         st.steps += o.steps;
         st.switches += o.switches;
